@@ -24,7 +24,11 @@ func (c13) Rule() string {
 
 func (c13) Gen(r *Rng, tier string, run int) *Trace {
 	g := newHgen(r, "C13")
-	s0 := g.addStack(g.kind(), 0)
+	cap0 := 0
+	if r.Bool(0.25) {
+		cap0 = r.Range(2, 6) // a skipped stack must not use up a slot
+	}
+	s0 := g.addStack(g.kind(), cap0)
 	s1 := g.addStack(g.kind(), 0)
 	s2 := g.addStack(g.kind(), 0)
 	c3 := g.addCond("kw", 1, vStr("ex"))
